@@ -83,8 +83,8 @@ def abbreviate(o, maxlen=160):
                 return x
             return {k: ab(v) for k, v in x.items()}
         if isinstance(x, list):
-            if len(x) > 24:
-                return [ab(v) for v in x[:20]] + ["...(%d items)" % len(x)]
+            if len(x) > 16:
+                return [ab(v) for v in x[:10]] + ["...(%d items)" % len(x)]
             return [ab(v) for v in x]
         if isinstance(x, str) and len(x) > maxlen:
             return x[:maxlen] + "...(%d chars)" % len(x)
@@ -232,7 +232,8 @@ class Ctx:
         self.tier = tier
         self.seed = seed
         self.repo = REPO
-        self.build = os.path.join(BUILD, prop)
+        tag = os.environ.get("VERIF_BUILD_TAG")
+        self.build = os.path.join(BUILD, prop + ("-" + tag if tag else ""))
         os.makedirs(self.build, exist_ok=True)
 
 
@@ -347,7 +348,7 @@ def run_sub(ctx, mod, sub, findings):
 
 
 def write_replay(prop, failure):
-    d = os.path.join(VERIF, "replays", prop)
+    d = os.path.join(os.environ.get("VERIF_REPLAY_DIR") or os.path.join(VERIF, "replays"), prop)
     os.makedirs(d, exist_ok=True)
     body = {"property": prop, "sub": failure.sub, "sig": failure.sig,
             "msg": failure.msg, "case": to_json(failure.case)}
